@@ -68,7 +68,9 @@ func (d *detNet) deliver(r *rand.Rand, loss, dup int, reorder bool) {
 // pass runs the worker body over the node until nothing is queued (bounded).
 // The body runs in a goroutine of its own because a fuse may kill the node in
 // the middle of it: the blocked call is then released by crash().
-func (c *cluster) pass(n *node) {
+func (c *cluster) pass(n *node) { c.passW(n, true) }
+
+func (c *cluster) passW(n *node, wait bool) {
 	if !n.up {
 		return
 	}
@@ -77,7 +79,9 @@ func (c *cluster) pass(n *node) {
 		done := make(chan bool, 1)
 		go func() {
 			r := rt.VerifC12ProcessSlot(slotID)
-			rt.VerifC12WaitApplyIdle(slotID)
+			if wait {
+				rt.VerifC12WaitApplyIdle(slotID)
+			}
 			done <- r
 		}()
 		var requeue bool
@@ -123,7 +127,7 @@ func (c *cluster) round(d *detNet, op opIn) {
 			if op.T == 0 || op.T&(1<<(i-1)) != 0 {
 				n.rt.VerifC12Tick(slotID)
 			}
-			c.pass(n)
+			c.passW(n, !op.W)
 		}
 	}
 }
